@@ -10,7 +10,10 @@ use std::borrow::Cow;
 const CHAIN: [&str; 8] = ["dis", "disMacro", "disKey", "name", "def", "tag", "navName", "id"];
 
 fn localized(key: &str) -> Option<String> {
-    // a deterministic localisation table: keys containing 'k' exist
+    // a deterministic localisation table: keys containing 'k' exist; one of them is localised to the empty string
+    if key == "kEmpty" || key == "kE" {
+        return Some(String::new());
+    }
     if key.contains('k') {
         Some(format!("L[{key}]"))
     } else {
@@ -144,16 +147,31 @@ fn lib_dis(d: &Dict, default: Option<&str>) -> String {
     dict_to_dis(d, &loc, default.map(Cow::Borrowed)).to_string()
 }
 
-const PIECES: [&str; 47] = [
+const PIECES: [&str; 49] = [
     // the display tags themselves are ordinary tags inside a pattern
     "$dis", "${disMacro}", "$disMacro", "$disKey", "${name}", "$def", "$tag", "${navName}", "$id", "$navName", "$name", "${id}",
-    "$pwr", "${pwr}", "$tempSp", "pwr", "$pinf",
+    "$pwr", "${pwr}", "$tempSp", "pwr", "$pinf", "$<kE>", "$<kEmpty>",
     "$", "{", "}", "<", ">", "a", "b", "ab", "aB_9", "siteRef", "k", "kx", "pod::key", " ", "é", "$a", "${a}", "${ab}", "$<k>", "$<x>", "$ab", "$siteRef", "$$", "${", "$<", "x", "A", "_", "9", "😀",
 ];
 
+/// a tag name of 300 characters (tag names have no length limit)
+fn long_tag() -> &'static str {
+    static T: std::sync::OnceLock<String> = std::sync::OnceLock::new();
+    T.get_or_init(|| format!("t{}", "aB9_".repeat(75)))
+}
+
 fn gen_pattern(rng: &mut Rng) -> String {
     let n = rng.below(9);
-    (0..n).map(|_| *rng.pick::<&str>(&PIECES)).collect::<Vec<_>>().concat()
+    let mut p = (0..n).map(|_| *rng.pick::<&str>(&PIECES)).collect::<Vec<_>>().concat();
+    if rng.chance(1, 25) {
+        p.push_str(if rng.coin() { "$" } else { "${" });
+        p.push_str(long_tag());
+        if p.contains("${t") && rng.chance(9, 10) {
+            p.push('}');
+        }
+        p.push_str(" end");
+    }
+    p
 }
 
 fn value_of_kind(rng: &mut Rng, k: usize) -> Value {
@@ -220,7 +238,7 @@ pub fn run(ctx: &mut Ctx) {
                     let v = if *tag == "disMacro" && macro_pattern {
                         Value::make_str(&gen_pattern(&mut rng))
                     } else if *tag == "disKey" && (if random { rng.coin() } else { k % 3 == 0 }) {
-                        Value::make_str(if (k + opt) % 2 == 0 { "kLocal" } else { "nolocal" })
+                        Value::make_str(*rng.pick::<&str>(&["kLocal", "nolocal", "kEmpty"]))
                     } else {
                         let kind = if random { rng.below(14) } else { k + bit };
                         value_of_kind(&mut rng, kind)
@@ -286,6 +304,8 @@ pub fn run(ctx: &mut Ctx) {
         ("tempSp", Value::make_number_unit(-40.0, crate::bridge::unit_by_name("fahrenheit").unwrap())),
         ("pinf", Value::make_number_unit(f64::INFINITY, crate::bridge::unit_by_name("kilowatt").unwrap())), // ill-formed but constructible
         ("x", Value::make_str("$a")), // substituted text is not re-scanned
+        ("y", Value::make_str("${a} $<k> $x")),
+        (long_tag(), Value::make_str("LONG")),
     ];
     let n = ctx.n(20_000, 1_000_000);
     for i in 0..n {
